@@ -176,6 +176,33 @@ pub fn scenario(mode: &str, pool_size: u32, progs: &[&str]) -> Scenario {
     }
 }
 
+/// pool_size 1: c0 holds the only server in a transaction, c1 queues, the pool is paused, c0 commits, the
+/// pool is resumed: c1 must be served, nothing may stay checked out during or after the pause.
+pub fn pause_scenario(mode: &str) -> Scenario {
+    let cfg = Cfg::one(PoolCfg::simple("db", mode, 1, 1, 0));
+    let servers = cfg.servers();
+    let c0 = Script::new("c0")
+        .connect("alice", "db", Some("alicepw"))
+        .q(&format!("BEGIN /*{}*/", tag(0, 0, 0)))
+        .q(&format!("SELECT 1 /*{}*/", tag(0, 0, 1)))
+        .wait(Cond::ActorAt(2, 2))
+        .q(&format!("COMMIT /*{}*/", tag(0, 0, 2)))
+        .terminate();
+    let c1 = Script::new("c1").connect("alice", "db", Some("alicepw")).wait(Cond::ActorAt(0, 5)).q(&format!("SELECT 1 /*{}*/", tag(1, 0, 0))).q(&format!("SELECT 2 /*{}*/", tag(1, 1, 0))).terminate();
+    let admin = env("admin", vec![Step::Wait(Cond::ActorAt(1, 3)), Step::Admin("PAUSE".into()), Step::Wait(Cond::ActorsDone(vec![0])), Step::Probe, Step::Admin("RESUME".into())]);
+    let mut actors = vec![c0.actor(), c1.actor(), admin];
+    add_probe(&mut actors, 1);
+    Scenario {
+        name: format!("C04 mode={} pool_size=1 progs=pause-queued", mode),
+        toml: cfg.toml(),
+        alt_tomls: vec![],
+        servers,
+        actors,
+        opts: Opts::default(),
+        meta: serde_json::Value::Null,
+    }
+}
+
 /// c0 holds the only connection past connect_timeout; c1 must get the pool error, stay usable, and be served later.
 pub fn timeout_scenario(mode: &str, limit: Option<u64>) -> Scenario {
     let mut pool = PoolCfg::simple("db", mode, 1, 1, 0);
@@ -328,6 +355,26 @@ pub fn oracle(sc: &Scenario, out: &Outcome) -> Vec<Violation> {
         }
     }
 
+    // (4b) paused pool: the queued client is served after RESUME, and while the pool is paused (probe taken
+    // after the holder has left) nobody holds a server
+    if progs == "pause-queued" {
+        for c in 0..2 {
+            let errs: Vec<String> = client_msgs(log, c).iter().filter(|(_, m)| m.code == b'E').map(|(_, m)| m.err_field(b'M').unwrap_or_default()).collect();
+            if !errs.is_empty() {
+                vs.push(v("C04.waiter", format!("C04.waiter-not-served:{}", ctx), format!("client {} waited for a server across PAUSE/RESUME and got {:?} instead of being served", c, errs)));
+            }
+        }
+        if let Some(data) = log.iter().find_map(|e| if let Rec::Probe { data } = &e.rec { Some(data.clone()) } else { None }) {
+            let j: serde_json::Value = serde_json::from_str(&data).unwrap();
+            for p in j["pools"].as_array().unwrap() {
+                let (c, i) = (p["connections"].as_u64().unwrap(), p["idle"].as_u64().unwrap());
+                if c != i {
+                    vs.push(v("C04.leak", format!("C04.leak-while-paused:{}", ctx), format!("while the pool is paused and no transaction is open, {} of {} server connections are checked out", c - i, c)));
+                }
+            }
+        }
+    }
+
     // (5) waiters: a client that got the pool error stays usable and is served later
     if progs.starts_with("hold+wait-timeout") {
         let msgs = client_msgs(log, 1);
@@ -396,12 +443,14 @@ pub fn build(tier: &str) -> SimCheck {
         scenarios.push(timeout_scenario(mode, None));
         scenarios.push(timeout_scenario(mode, Some(2)));
     }
+    scenarios.push(pause_scenario("transaction"));
+    scenarios.push(pause_scenario("session"));
     SimCheck {
         scenarios,
         oracle: Box::new(oracle),
         bound: if thorough { 3 } else { 2 },
         limits: Limits { max_wall_s: if thorough { 1500.0 } else { 50.0 }, ..Default::default() },
-        rule: "scenario = pool mode x pool_size {1,2} x (pool_size+1 or +2) client programs (normal, aborts by hard drop/FIN mid-transaction, mid-COPY, mid-batch, server-side errors, server closing mid-reply, server-failed COPY, server dropping its idle pooled connections, extended-protocol batches answered from the statement cache by clients that then stay idle) plus hold-past-connect_timeout with/without checkout_failure_limit; all schedules with <= bound deviations; then pool_size simultaneous probe transactions and a pooler-state probe; distinct = distinct end-to-end histories".into(),
+        rule: "scenario = pool mode x pool_size {1,2} x (pool_size+1 or +2) client programs (normal, aborts by hard drop/FIN mid-transaction, mid-COPY, mid-batch, server-side errors, server closing mid-reply, server-failed COPY, server dropping its idle pooled connections, extended-protocol batches answered from the statement cache by clients that then stay idle) plus a client queued for the only server across PAUSE / RESUME, plus hold-past-connect_timeout with/without checkout_failure_limit; all schedules with <= bound deviations; then pool_size simultaneous probe transactions and a pooler-state probe; distinct = distinct end-to-end histories".into(),
         assumptions: vec![
             "connections are counted on the reference backend's side (accepted minus closed) at quiescent points".into(),
             "hung servers belong to C07's alphabet".into(),
